@@ -265,7 +265,13 @@ func init() {
 // connection drops, targets refusing and recovering under every scheduling policy) are run
 // with the crash oracle only.
 
-func checkPanicsOnly(w *World, run *simrt.Run) {
+func checkPanicsOnly(w *World, run *simrt.Run) { reportPanics(w, run, "C08.panic", "panic:") }
+
+// reportPanics reports every panic of a library goroutine as a violation. Outside the C08
+// scenarios it is the only judgement made about a run in which the process would have crashed:
+// whatever the scenario was exercising (a context buffer one byte too small, a reply of a
+// particular size, ...) took the process down, so the property it checks did not hold there.
+func reportPanics(w *World, run *simrt.Run, oracle, prefix string) {
 	for _, pn := range run.Panics {
 		top := topFrame(pn.Stack)
 		val := pn.Value
@@ -275,7 +281,7 @@ func checkPanicsOnly(w *World, run *simrt.Run) {
 		if strings.Contains(val, "slice bounds out of range") {
 			val = "slice bounds out of range"
 		}
-		w.Violate("C08.panic", fmt.Sprintf("panic:%s@%s", val, top), fmt.Sprintf("goroutine %s (%s) panicked: %s\n%s", pn.G, pn.Site, pn.Value, clipStack(pn.Stack)))
+		w.Violate(oracle, fmt.Sprintf("%s%s@%s", prefix, val, top), fmt.Sprintf("goroutine %s (%s) panicked: %s\n%s", pn.G, pn.Site, pn.Value, clipStack(pn.Stack)))
 	}
 }
 
